@@ -52,6 +52,14 @@ func RenameCallable(callable syntax.Callable,
 			})
 		}
 	}
+	if len(edits) > 0 && callable.GetOutParams() != nil &&
+		len(callable.GetOutParams().List) > 0 {
+		// The outputs of a callable are also a struct type of its name.
+		edits = append(edits, renameTypeRefsEdit{
+			OldName: callable.GetId(),
+			NewName: newName,
+		})
+	}
 	if len(edits) == 0 {
 		return nil
 	}
@@ -233,6 +241,53 @@ type (
 		DecId    string
 	}
 )
+
+// Renames references to the struct type made of a callable's outputs, in
+// the parameters of callables and the members of struct types.
+type renameTypeRefsEdit struct {
+	OldName string
+	NewName string
+}
+
+func (e renameTypeRefsEdit) Apply(ast *syntax.Ast) (int, error) {
+	count := 0
+	rename := func(t *syntax.TypeId) {
+		if t.Tname == e.OldName {
+			t.Tname = e.NewName
+			count++
+		}
+	}
+	renameIns := func(params *syntax.InParams) {
+		if params != nil {
+			for _, p := range params.List {
+				rename(&p.Tname)
+			}
+		}
+	}
+	renameOuts := func(params *syntax.OutParams) {
+		if params != nil {
+			for _, p := range params.List {
+				rename(&p.Tname)
+			}
+		}
+	}
+	for _, st := range ast.StructTypes {
+		for _, m := range st.Members {
+			rename(&m.Tname)
+		}
+	}
+	if ast.Callables != nil {
+		for _, callable := range ast.Callables.List {
+			renameIns(callable.GetInParams())
+			renameOuts(callable.GetOutParams())
+			if stage, ok := callable.(*syntax.Stage); ok {
+				renameIns(stage.ChunkIns)
+				renameOuts(stage.ChunkOuts)
+			}
+		}
+	}
+	return count, nil
+}
 
 func (e renameCallableEdit) Apply(ast *syntax.Ast) (int, error) {
 	for _, callable := range ast.Callables.List {
